@@ -5,6 +5,7 @@ P="$1"; shift
 cd /repo || exit 2
 if ! git apply --check "$P" 2>/dev/null; then echo "patch does not apply"; exit 2; fi
 git apply "$P"
+mkdir -p /tmp/seeded-eval && cp /verif/known_findings.txt /tmp/seeded-eval/
 git diff --stat | tail -1
 for id in "$@"; do
   out=$(cd /verif && VERIF_DIR_OVERRIDE=/tmp/seeded-eval ./check "$id" quick 2>&1); rc=$?
